@@ -193,6 +193,11 @@ func (e *rcEnv) quiescentOracle(heldRefs []int) {
 		return
 	}
 	v, perr := e.target.GetValue(), e.targetErr.GetValue()
+	if i := v - 100; i >= 1 && i <= 8 && vsched.Ctr(rcInv0+i) != 0 {
+		// (quiescent: the released() invocation has completed, also when it went through a goroutine)
+		fail("C09.invalidated-value-kept", "released() was called for value %d but at quiescence it is still the current value: it was not dropped and resolved afresh", v)
+		return
+	}
 	if last == 1 {
 		if v != valOf(n) || (perr != nil && *perr != nil) {
 			fail("C09.result-not-delivered", "latest resolver call %d returned %d but target=%d targetErr=%v", n, valOf(n), v, perr)
